@@ -27,6 +27,7 @@ import (
 	"strconv"
 	"strings"
 	"testing"
+	"time"
 
 	"pgregory.net/rapid"
 
@@ -41,7 +42,7 @@ func TestMain(m *testing.M) {
 		evid.Spec{Name: "TestPropParallelism", Kind: "rapid", Quick: 720, Thorough: 9600, QuickShards: 16, ThoroughShards: 16},
 	)
 	evid.Commands("obiconvert", "obigrep", "obiannotate", "obicomplement", "obipairing", "obimultiplex", "obipcr", "obicount", "obisummary", "obicsv")
-	evid.Note("rule", "a case = (command, functional options, generated input: FASTA/FASTQ records with annotations; paired reads cut from fragments for obipairing; tagged amplicon reads + sample sheet for obimultiplex; templates with planted priming sites for obipcr) run once with default parallelism and then under 5 generated configurations of --max-cpu {1..32} x --batch-size {1,2,3,7,n/2,n,2000} x GOMAXPROCS {1,2,16} x push jitter on/off x the non-functional options --debug / --no-progressbar (binaries built with recycled-buffer poisoning). Oracle: stdout (and the -u file of obimultiplex) byte-identical to the baseline run, exit status 0, no poison byte in any sequence line; obisummary/obicount compared as parsed values. Non-trivial = the compared run used >= 2 CPUs and the input holds more records than the batch size (>= 2 batches). Distinct = hash(command, options, input, configuration).")
+	evid.Note("rule", "a case = (command, functional options, generated input: FASTA/FASTQ records with annotations; paired reads cut from fragments for obipairing; tagged amplicon reads + sample sheet for obimultiplex; templates with planted priming sites for obipcr) run once with default parallelism and then under 5 generated configurations of --max-cpu {1..32} x --batch-size {1,2,3,7,n/2,n,2000} x GOMAXPROCS {1,2,16} x push jitter on/off x the non-functional options --debug / --no-progressbar x standard error a pseudo-terminal (progress bars drawn) or not x, for a fifth of the single-input cases, the input on standard input, once delivered in two pieces 1.3 s apart; obimultiplex reads include concatemers of 2-4 amplicons, generic inputs carry obiclean-style annotations in a quarter of the cases (always for obisummary) (binaries built with recycled-buffer poisoning). Oracle: stdout (and the -u file of obimultiplex) byte-identical to the baseline run, exit status 0, no poison byte in any sequence line; obisummary/obicount compared as parsed values. Non-trivial = the compared run used >= 2 CPUs and the input holds more records than the batch size (>= 2 batches). Distinct = hash(command, options, input, configuration).")
 	evid.Main(m, "C05")
 }
 
@@ -50,23 +51,28 @@ func TestReplay(t *testing.T) { evid.Replay(t) }
 // ---------------------------------------------------------------- case
 
 type Config struct {
-	MaxCPU int // 0 = option not given
-	Batch  int // 0 = option not given
-	Procs  int // GOMAXPROCS, 0 = unset
-	Jitter int // microseconds, 0 = off
+	MaxCPU int  // 0 = option not given
+	Batch  int  // 0 = option not given
+	Procs  int  // GOMAXPROCS, 0 = unset
+	Jitter int  // microseconds, 0 = off
 	Debug  bool // --debug: log level only, the output must not change
 	NoBar  bool // --no-progressbar
+	TTY    bool // the standard error of the command is a (pseudo-)terminal, as for an interactive user: progress bars are drawn
+	SlowIn bool // Case.Stdin only: the input arrives in two pieces 1.3 s apart (a slow producer at the other end of the pipe)
 }
 
 type Case struct {
-	Tool    string
-	Opts    []string
-	N       int
-	SeqLen  int
-	Salt    int
-	Fastq   bool
-	Genome  int // > 0: the input is three FASTA records, the middle one of this many nucleotides
-	Configs []Config
+	Tool     string
+	Opts     []string
+	N        int
+	SeqLen   int
+	Salt     int
+	Fastq    bool
+	Genome   int  // > 0: the input is three FASTA records, the middle one of this many nucleotides
+	Stdin    bool // the input file is given on standard input (every run of the case, baseline included)
+	Chimeras bool // obimultiplex: some reads are concatemers of two to four amplicons
+	Cleaned  bool // the records carry the annotations obiclean writes (merged_sample, obiclean_status, obiclean_weight, ...)
+	Configs  []Config
 }
 
 func init() { evid.Reg("parallelism", checkCase) }
@@ -148,6 +154,17 @@ func writeInputs(c Case, dir string) ([]string, []string, int) {
 			t := tags[int(x.next())%len(tags)]
 			bar := randSeq(&x, 20+int(x.next()%40), "acgt")
 			read := randSeq(&x, int(x.next()%5), "acgt") + t + fwdPrimer + bar + ref.RevComp(revPrimer) + ref.RevComp(t) + randSeq(&x, int(x.next()%5), "acgt")
+			if c.Chimeras && x.next()%4 == 0 {
+				// a concatemer: several amplicons (any samples) in one read
+				for k := 1 + int(x.next()%3); k > 0; k-- {
+					t2 := tags[int(x.next())%len(tags)]
+					unit := t2 + fwdPrimer + randSeq(&x, 20+int(x.next()%40), "acgt") + ref.RevComp(revPrimer) + ref.RevComp(t2)
+					if x.next()%3 == 0 {
+						unit = ref.RevComp(unit)
+					}
+					read += randSeq(&x, int(x.next()%6), "acgt") + unit
+				}
+			}
 			switch x.next() % 6 {
 			case 0:
 				read = ref.RevComp(read)
@@ -212,6 +229,14 @@ func writeInputs(c Case, dir string) ([]string, []string, int) {
 				extra += fmt.Sprintf(`,"a%d":%d`, a, (i*7+a)%13)
 			}
 		}
+		if c.Cleaned {
+			// what obiclean leaves on its output: per-sample counts, status and weight
+			c1, c2 := 1+int(x.next()%40), int(x.next()%9)
+			st := []string{"h", "i", "s"}
+			s1, s2 := st[x.next()%3], st[x.next()%3]
+			extra += fmt.Sprintf(`,"merged_sample":{"sa":%d,"sb":%d},"obiclean_status":{"sa":"%s","sb":"%s"},"obiclean_weight":{"sa":%d,"sb":%d},"obiclean_head":%v,"obiclean_headcount":%d,"obiclean_internalcount":%d,"obiclean_singletoncount":%d,"obiclean_samplecount":2`,
+				c1, c2+1, s1, s2, c1+int(x.next()%5), c2+1, s1 != "i" || s2 != "i", b2i(s1 == "h")+b2i(s2 == "h"), b2i(s1 == "i")+b2i(s2 == "i"), b2i(s1 == "s")+b2i(s2 == "s"))
+		}
 		title := fmt.Sprintf(`{"count":%d,"k":%d,"label":"x %d","m":{"a":%d,"b":2}%s} some definition %d`, 1+x.next()%5, i%5, i, i%3, extra, i)
 		id := fmt.Sprintf("s%d", i)
 		if c.Fastq {
@@ -223,6 +248,13 @@ func writeInputs(c Case, dir string) ([]string, []string, int) {
 	ip := filepath.Join(dir, "in."+ext(c))
 	os.WriteFile(ip, []byte(b.String()), 0o644)
 	return []string{ip}, nil, n
+}
+
+func b2i(b bool) int {
+	if b {
+		return 1
+	}
+	return 0
 }
 
 func ext(c Case) string {
@@ -265,7 +297,21 @@ func runOnce(c Case, cfg Config, inArgs, outFiles []string) (output, run.Result)
 	for _, f := range outFiles {
 		os.Remove(f)
 	}
-	res := run.Cmd(run.Opt{Env: env}, c.Tool, args...)
+	opt := run.Opt{Env: env, StderrTTY: cfg.TTY}
+	if c.Stdin && len(inArgs) >= 1 {
+		// (the input file is the last argument; --batch-size cuts the batches of the standard
+		// input reader only: a file is cut into batches by the 1 MiB reading chunks)
+		data, err := os.ReadFile(inArgs[len(inArgs)-1])
+		if err != nil {
+			return output{}, run.Result{NoTTY: true, Exit: -1}
+		}
+		args = args[:len(args)-1]
+		opt.Stdin = data
+		if cfg.SlowIn {
+			opt.StdinPieces, opt.StdinPause = 2, 1300*time.Millisecond
+		}
+	}
+	res := run.Cmd(opt, c.Tool, args...)
 	out := output{stdout: res.Stdout}
 	for _, f := range outFiles {
 		b, _ := os.ReadFile(f)
@@ -436,6 +482,10 @@ func TestPropParallelism(t *testing.T) {
 		if len(c.Opts) > 0 && c.Opts[0] == "--fastq-output" && !c.Fastq {
 			c.Opts = []string{}
 		}
+		c.Chimeras = c.Tool == "obimultiplex" && rapid.Bool().Draw(rt, "chimeras")
+		generic := c.Tool != "obipairing" && c.Tool != "obimultiplex" && c.Tool != "obipcr"
+		c.Cleaned = generic && c.Genome == 0 && c.N < 2000 && (c.Tool == "obisummary" || rapid.IntRange(0, 3).Draw(rt, "cleaned") == 0)
+		c.Stdin = c.Tool != "obipairing" && c.Genome == 0 && c.N < 2000 && rapid.IntRange(0, 4).Draw(rt, "stdin") <= b2i(!generic)
 		nontrivial := false
 		for i := 0; i < 5; i++ {
 			cfg := Config{
@@ -445,6 +495,11 @@ func TestPropParallelism(t *testing.T) {
 				Jitter: rapid.SampledFrom([]int{0, 0, 100, 1000}).Draw(rt, "jitter"),
 				Debug:  rapid.IntRange(0, 5).Draw(rt, "debug") == 0,
 				NoBar:  rapid.IntRange(0, 5).Draw(rt, "nobar") == 0,
+			}
+			cfg.TTY = rapid.IntRange(0, 5).Draw(rt, "tty") == 0
+			if c.Stdin && i == 0 && generic {
+				// the input dribbles in while the user watches the progress bar
+				cfg.SlowIn, cfg.TTY = true, rapid.IntRange(0, 3).Draw(rt, "slow_tty") != 0
 			}
 			if c.N >= 300 && cfg.Batch > 0 && cfg.Batch < 3 {
 				cfg.Batch = 7 // one-record batches on large inputs only cost time
@@ -470,6 +525,15 @@ func TestPropParallelism(t *testing.T) {
 		if c.Genome > 0 {
 			cl = append(cl, "one_record_longer_than_1MiB")
 		}
+		if c.Chimeras {
+			cl = append(cl, "multiplex_concatemers")
+		}
+		if c.Cleaned {
+			cl = append(cl, "obiclean_annotated_input")
+		}
+		if c.Stdin {
+			cl = append(cl, "input_on_stdin")
+		}
 		_ = nontrivial
 		for i, cfg := range c.Configs {
 			// one evaluation per compared run (baseline vs this configuration)
@@ -478,7 +542,14 @@ func TestPropParallelism(t *testing.T) {
 			if i == 0 {
 				sample = c
 			}
-			evid.Eval("parallelism", evid.Hash(fmt.Sprintf("%+v|%+v", c, cfg)), nt, sample, cl...)
+			ccl := cl
+			if cfg.TTY {
+				ccl = append(append([]string{}, cl...), "stderr_is_a_terminal")
+			}
+			if cfg.SlowIn {
+				ccl = append(append([]string{}, ccl...), "slow_stdin")
+			}
+			evid.Eval("parallelism", evid.Hash(fmt.Sprintf("%+v|%+v", c, cfg)), nt, sample, ccl...)
 		}
 		if err := checkCase(c); err != nil {
 			evid.Fail(rt, "parallelism", c, err)
